@@ -346,8 +346,10 @@ func dependsOnFieldLoad(v ssa.Value, fld string) bool {
 			return true
 		}
 		if in, ok := x.(ssa.Instruction); ok {
-			if _, isCall := x.(*ssa.Call); isCall {
-				return false
+			if call, isCall := x.(*ssa.Call); isCall {
+				if _, isBuiltin := call.Call.Value.(*ssa.Builtin); !isBuiltin {
+					return false
+				}
 			}
 			for _, op := range in.Operands(nil) {
 				if op != nil && *op != nil && walk(*op) {
